@@ -2,6 +2,7 @@ package main
 
 import (
 	"bufio"
+	"os"
 	"encoding/json"
 	"fmt"
 	"net"
@@ -352,15 +353,30 @@ func bindModes(rep *Report, prop string) {
 	viol := func(kind, detail string) { rep.violate(prop+"/binary:"+kind, detail, map[string]any{"noreplay": true}) }
 	hs, ta := tsgu.Handshake(1, 0, 0, tsgu.ExtAuthPAA), tsgu.TunnelAuth("pc")
 	{
-		b := startBind(bindOpts{Security: " VerifyClientIp: false\n"})
-		_, _, tok, why := b.login("alice")
-		rep.add("executions", 2)
+		b := startBind(bindOpts{Security: " VerifyClientIp: false\n", Hosts: []string{"127.0.0.2:PORT", "127.0.0.3:PORT"}})
+		_, file, tok, why := b.login("alice")
+		rep.add("executions", 3)
 		if why == "" {
+			tip := strings.Split(rdpValue(file, "full address"), ":")[0]
+			other := "127.0.0.3"
+			if tip == other {
+				other = "127.0.0.2"
+			}
 			if s, _ := b.openWS("127.0.0.2", nil); s != nil {
-				got := s.statuses(hs, tsgu.TunnelCreate(tok, true), ta, tsgu.ChannelCreate("127.0.0.2", uint16(b.bport)))
+				got := s.statuses(hs, tsgu.TunnelCreate(tok, true), ta, tsgu.ChannelCreate(tip, uint16(b.bport)))
 				s.close()
 				if len(got) != 4 || got[3] != 0 {
 					viol("verification-off-still-binds-address", fmt.Sprintf("statuses %x", got))
+				}
+			}
+			// the token still binds the host
+			before := b.be[other].Hits()
+			if s, _ := b.openWS("", nil); s != nil {
+				got := s.statuses(hs, tsgu.TunnelCreate(tok, true), ta, tsgu.ChannelCreate(other, uint16(b.bport)))
+				s.close()
+				time.Sleep(20 * time.Millisecond)
+				if (len(got) == 4 && got[3] == 0) || b.be[other].Hits() != before {
+					viol("verification-off-drops-token-host-binding", fmt.Sprintf("token for %s, channel to %s: statuses %x, connections %d", tip, other, got, b.be[other].Hits()-before))
 				}
 			}
 		} else {
@@ -481,6 +497,27 @@ func bindCaps(rep *Report, prop string, env *Env) {
 			}
 			s.close()
 		}
+		// whatever the capability settings, token auth still demands an accepted cookie
+		if s, _ := b.openWS("", nil); s != nil {
+			ext := tsgu.ExtAuthPAA
+			if sc {
+				ext |= tsgu.ExtAuthSC
+			}
+			got := s.statuses(tsgu.Handshake(1, 0, 0, ext), tsgu.TunnelCreate("", false))
+			s.close()
+			if len(got) != 2 || got[1] != tsgu.ECookieAuthDenied {
+				viol("tunnel-created-without-cookie-under-token-auth", fmt.Sprintf("SmartCardAuth=%v: statuses %x", sc, got))
+			}
+			if s2, _ := b.openWS("", nil); s2 != nil {
+				before := b.be["127.0.0.2"].Hits()
+				got := s2.statuses(tsgu.Handshake(1, 0, 0, ext), tsgu.TunnelCreate("", false), tsgu.TunnelAuth("pc"), tsgu.ChannelCreate("127.0.0.2", uint16(b.bport)))
+				s2.close()
+				time.Sleep(20 * time.Millisecond)
+				if b.be["127.0.0.2"].Hits() != before || (len(got) == 4 && got[3] == 0) {
+					viol("backend-reached-without-cookie-under-token-auth", fmt.Sprintf("SmartCardAuth=%v: statuses %x", sc, got))
+				}
+			}
+		}
 		rep.outcome(fmt.Sprintf("binary caps flags=%d", fi))
 		b.stop()
 	}
@@ -535,5 +572,68 @@ func bindUserToken(rep *Report, prop string) {
 		}
 		rep.outcome(fmt.Sprintf("binary usertoken sign=%v", sign))
 		b.stop()
+	}
+}
+
+func fdCount(pid int) int {
+	d, err := os.ReadDir(fmt.Sprintf("/proc/%d/fd", pid))
+	if err != nil {
+		return -1
+	}
+	return len(d)
+}
+
+// bindLeaks: tunnels that end on the real binary give back every descriptor (C11).
+func bindLeaks(rep *Report, prop string) {
+	viol := func(kind, detail string) { rep.violate(prop+"/binary:"+kind, detail, map[string]any{"noreplay": true}) }
+	b := startBind(bindOpts{})
+	defer b.stop()
+	rep.add("executions", 1)
+	_, _, tok, why := b.login("alice")
+	if why != "" {
+		viol("openid-login-failed", why)
+		return
+	}
+	pid := b.g.cmd.Process.Pid
+	hs, ta := tsgu.Handshake(1, 0, 0, tsgu.ExtAuthPAA), tsgu.TunnelAuth("pc")
+	tunnel := func(end string) {
+		s, _ := b.openWS("", nil)
+		if s == nil {
+			return
+		}
+		s.statuses(hs, tsgu.TunnelCreate(tok, true), ta, tsgu.ChannelCreate("127.0.0.2", uint16(b.bport)))
+		switch end {
+		case "close":
+			s.send(tsgu.Data([]byte("x")), 200*time.Millisecond)
+			s.send(tsgu.CloseChannel(), 2*time.Second)
+		case "error":
+			s.send(tsgu.Handshake(1, 0, 0, tsgu.ExtAuthPAA), 2*time.Second)
+		}
+		s.close()
+	}
+	settle := func(target int) int {
+		n := fdCount(pid)
+		for i := 0; i < 100 && n > target; i++ {
+			time.Sleep(50 * time.Millisecond)
+			n = fdCount(pid)
+		}
+		return n
+	}
+	tunnel("close")
+	tunnel("drop")
+	time.Sleep(300 * time.Millisecond)
+	base := fdCount(pid)
+	for i := 0; i < 9; i++ {
+		tunnel([]string{"close", "drop", "error"}[i%3])
+		rep.add("executions", 1)
+	}
+	after := settle(base + 1)
+	rep.outcome(fmt.Sprintf("binary descriptors base=%d after=%d", base, after))
+	rep.sample(map[string]any{"binding": "descriptor count of the real rdpgw process around 9 tunnels (close / drop / protocol error)", "before": base, "after": after})
+	if base > 0 && after > base+1 {
+		viol("descriptors-not-released-after-tunnels-end", fmt.Sprintf("the gateway process held %d descriptors after two warm-up tunnels and %d after nine more tunnels had ended (waited 5 s)", base, after))
+	}
+	if cr := b.g.Crashed(); cr != "" {
+		viol("panic", cr)
 	}
 }
